@@ -1,7 +1,7 @@
 """pyvc.sym -- symbolic proxy values and the path context.
 
 Every semantic rule that is not plain CPython execution lives in this file.
-Each rule is cross-checked against CPython by pyvc.selftest on every run (T2).
+Rules are cross-checked against CPython on every run through the native contract evaluation of the runner (T2).
 
 Integers are z3 Int (mathematical): Python ints are unbounded, so this is exact.
 """
